@@ -33,7 +33,8 @@ def instances(tier):
         out.append(Instance("agree.L%d" % L, "h_agree", {"L": L}, timeout=900))
     for L in ((1, 2) if q else (1, 2, 3)):
         out.append(Instance("encode.L%d" % L, "h_encode", {"L": L}, timeout=900))
-    for shape in (["d", "ad", "da", "dd", "ada", "dad"] if q else ["d", "ad", "da", "dd", "ada", "dad", "add", "dda", "aad", "daa", "adad", "ddd"]):
+    for shape in (["d", "ad", "da", "dd", "ada", "dad", "D", "aD", "Da", "DD", "dD", "Dd", "aDa", "g", "ag", "gg", "gD"] if q else
+                  ["d", "ad", "da", "dd", "ada", "dad", "add", "dda", "aad", "daa", "adad", "ddd", "D", "aD", "Da", "DD", "dD", "Dd", "aDa", "DaD", "aDD", "g", "ag", "ga", "gg", "gD", "Dg", "gd", "aga"]):
         out.append(Instance("dbcs.%s" % shape, "h_dbcs", {"shape": shape}, timeout=600))
     return out
 
@@ -316,9 +317,17 @@ def h_dbcs(I, shape):
         if ch == "a":
             cps.append(I.int("a%d" % i, 0x00, 0x7F))
             role.append(0)
-        else:
+        elif ch == "d":
             cps.append(I.int("lead%d" % i, 0xA1, 0xFE))  # EUC-JP / EUC-KR / GB2312 style pairs
             cps.append(I.int("trail%d" % i, 0xA1, 0xFE))
+            role += [1, 2]
+        elif ch == "D":
+            cps.append(I.int("lead%d" % i, 0x81, 0xFE))  # Big5 / GBK / UHC style pairs with an ASCII-range trail byte
+            cps.append(I.int("trail%d" % i, 0x40, 0x7E))
+            role += [1, 2]
+        else:
+            cps.append(I.int("lead%d" % i, 0x81, 0xFE))  # GBK / UHC pairs with a high trail byte
+            cps.append(I.int("trail%d" % i, 0x80, 0xFE))
             role += [1, 2]
     t = uw.mk_text(I, "bytes", cps)
     n = len(cps)
